@@ -588,6 +588,205 @@ def t_is_identity_lists_and_aliasing():
 def t_print_and_format_do_not_crash():
     print("ignored", 1, sep=",", end="")
     return "ok"
+
+
+@dataclass(order=True)
+class Ver:
+    major: int
+    minor: int = 0
+
+
+class Slotted:
+    __slots__ = ("a", "b")
+
+    def __init__(self, a, b):
+        self.a = a
+        self.b = b
+
+
+def t_dataclass_order_replace():
+    import dataclasses
+    vs = sorted([Ver(2, 1), Ver(1, 9), Ver(2)])
+    r = dataclasses.replace(vs[0], minor=3)
+    return [(v.major, v.minor) for v in vs], (r.major, r.minor), Ver(1) < Ver(1, 1), dataclasses.asdict(Ver(4, 5)), [f.name for f in dataclasses.fields(Ver)]
+
+
+def t_slots_and_dict_merge():
+    s = Slotted(1, 2)
+    d = {"a": 1} | {"b": 2}
+    d |= {"c": 3}
+    return s.a + s.b, d, list(d)
+
+
+def t_match_statement():
+    def f(v):
+        match v:
+            case 0:
+                return "zero"
+            case [x, y]:
+                return f"pair {x} {y}"
+            case {"k": val}:
+                return f"map {val}"
+            case str() as s2:
+                return "str " + s2
+            case Ver(major=m):
+                return f"ver {m}"
+            case int() | float():
+                return "num"
+            case _:
+                return "other"
+    return [f(v) for v in (0, [1, 2], {"k": 3}, "s", Ver(7), 2.5, None)]
+
+
+def t_generator_return_and_try():
+    def g():
+        try:
+            yield 1
+            yield 2
+            return
+            yield 3
+        finally:
+            pass
+    def h():
+        for i in range(3):
+            try:
+                if i == 1:
+                    raise ValueError("x")
+                yield i
+            except ValueError:
+                yield -1
+    return list(g()), list(h())
+
+
+def t_property_deleter_and_class_getattr():
+    class P:
+        def __init__(self):
+            self._v = 1
+
+        @property
+        def v(self):
+            return self._v
+
+        @v.setter
+        def v(self, x):
+            self._v = x * 2
+
+        def __getattr__(self, name):
+            if name.startswith("dyn_"):
+                return name[4:]
+            raise AttributeError(name)
+    p = P()
+    p.v = 5
+    try:
+        p.nope
+        r = "no error"
+    except AttributeError as e:
+        r = "AE " + str(e)
+    return p.v, p.dyn_x, r
+
+
+def t_singledispatch_free_total_ordering():
+    from functools import total_ordering
+
+    @total_ordering
+    class K:
+        def __init__(self, n):
+            self.n = n
+
+        def __eq__(self, o):
+            return self.n == o.n
+
+        def __lt__(self, o):
+            return self.n < o.n
+
+        def __hash__(self):
+            return hash(self.n)
+    return K(1) < K(2), K(2) > K(1), K(1) <= K(1), K(3) >= K(4), max(K(1), K(5)).n, sorted([K(3), K(1)])[0].n
+
+
+def t_enumerate_zip_strict_formatmap():
+    return list(enumerate("ab", start=2)), "{a}-{b}".format_map({"a": 1, "b": 2}), list(zip([1, 2], [3, 4], strict=True)), "x".center(5, "*"), "a\tb".expandtabs(4), " a b ".split(), "a,b,,c".split(",", 2)
+
+
+def t_list_membership_uses_eq():
+    ks = [Key("a", 1), Key("b", 2)]
+    return Key("a", 1) in ks, ks.index(Key("b", 2)), ks.count(Key("a", 1)), Key("z") in ks, [Point(1, [2])] == [Point(1, [2])], Point(1) in [Point(2), Point(1)]
+
+
+def t_set_of_objects_and_frozen_hash():
+    s = {Key("a", 1), Key("a", 1), Key("b", 1)}
+    d = {}
+    d[Key("a", 1)] = "x"
+    d[Key("a", 1)] = "y"
+    return len(s), len(d), d[Key("a", 1)], Key("a", 1) in s
+
+
+def t_bool_int_arith_and_comparisons_of_containers():
+    return True + True, sum([True, False, True]), [1, [2, 3]] == [1, [2, 3]], (1, 2) < (1, 3), {1: [2]} == {1: [2]}, {1, 2} == {2, 1}, "a" < "b", [] == (), not [], None == 0
+
+
+def t_while_with_pop_worklist_and_visited():
+    graph = {"a": ["b", "c"], "b": ["d"], "c": ["d"], "d": []}
+    seen, order, wl = set(), [], ["a"]
+    while wl:
+        n = wl.pop()
+        if n in seen:
+            continue
+        seen.add(n)
+        order.append(n)
+        wl.extend(reversed(graph[n]))
+    return order
+
+
+def t_nested_data_mutation_through_alias():
+    table = {"x": [1], "y": [2]}
+    alias = table["x"]
+    alias.append(3)
+    snapshot = {k: list(v) for k, v in table.items()}
+    table["y"] += [4]
+    vals = table.values()
+    return table, snapshot, sorted(map(len, vals)), list(table.items())[0][1] is alias
+
+
+def t_str_methods_more():
+    return ("a-b_c".replace("-", " ").split(), "Hello".swapcase(), "x=1;y=2".split(";")[1].split("="), "%05.1f|%-4s|%x" % (3.14159, "ab", 255), "abc"[::2], "abc" > "abd", "  x".lstrip(), "x\n".rstrip("\n"),
+            "a.b.c".rpartition("."), "ab".encode("utf-8"), b"ab".hex(), str(b"ab", "utf-8"), "é".encode("utf-8"), int("-12"), float("1.5"), str(1.0), repr(1e3), "1,2".split(",") == ["1", "2"], "abc".casefold(), "TeAL".lower().startswith(("te", "x")))
+
+
+def t_exceptions_more():
+    out = []
+    try:
+        try:
+            raise KeyError("k")
+        except KeyError as e:
+            raise ValueError("wrapped") from e
+    except ValueError as e2:
+        out.append((type(e2).__name__, str(e2), type(e2.__cause__).__name__ if e2.__cause__ else None))
+    try:
+        assert 1 == 2, "msg"
+    except AssertionError as e3:
+        out.append(str(e3))
+    try:
+        {}.pop("x")
+    except LookupError as e4:
+        out.append(type(e4).__name__)
+    try:
+        1 / 0
+    except ArithmeticError:
+        out.append("arith")
+    try:
+        raise NotImplementedError
+    except RuntimeError as e5:
+        out.append(type(e5).__name__)
+    try:
+        None.x
+    except AttributeError:
+        out.append("attr")
+    try:
+        [1][5]
+    except Exception as e6:
+        out.append(e6.args[0])
+    return out
 '''
 
 
